@@ -136,14 +136,16 @@ fn all_vectors(n: usize, specs: &[ChildSpec]) -> Vec<Vec<ChildSpec>> {
 
 fn join_cfgs(prop: &'static str, max_n: usize, depth: usize, post: usize, epi: Epilogue) -> Vec<Cfg> {
     let mut v = vec![];
-    for variant in 0..3 {
+    for variant in 0..4 {
         let plain = variant == 1;
         let nd = variant == 2;
+        let inexact = variant == 3;
         for n in 0..=max_n {
             for pre in all_vectors(n, &[f(Mode::Gate), f(Mode::Ready)]) {
                 let mut c = Cfg::new(prop, if plain { Kind::JaP(n) } else if nd { Kind::JaN(n) } else { Kind::Ja(n) });
-                c.name = format!("join_all{}[{}]", if plain { "<plain output>" } else if nd { "<future without drop glue>" } else { "" }, pre.iter().map(|p| p.render()).collect::<Vec<_>>().join(","));
+                c.name = format!("join_all{}[{}]", if plain { "<plain output>" } else if nd { "<future without drop glue>" } else if inexact { "<inputs via filter()>" } else { "" }, pre.iter().map(|p| p.render()).collect::<Vec<_>>().join(","));
                 c.prefill = pre;
+                c.inexact_iter = inexact;
                 c.ops = ops::POLL | ops::COMPLETE | ops::WAKE;
                 c.costly = ops::WAKE;
                 c.delta = 1;
@@ -158,8 +160,9 @@ fn join_cfgs(prop: &'static str, max_n: usize, depth: usize, post: usize, epi: E
             }
             for pre in all_vectors(n, &[f(Mode::Gate), f(Mode::Ready), ChildSpec::failing(Mode::Gate), ChildSpec::failing(Mode::Ready)]) {
                 let mut c = Cfg::new(prop, if plain { Kind::TjaP(n) } else if nd { Kind::TjaN(n) } else { Kind::Tja(n) });
-                c.name = format!("try_join_all{}[{}]", if plain { "<plain output>" } else if nd { "<future without drop glue>" } else { "" }, pre.iter().map(|p| p.render()).collect::<Vec<_>>().join(","));
+                c.name = format!("try_join_all{}[{}]", if plain { "<plain output>" } else if nd { "<future without drop glue>" } else if inexact { "<inputs via filter()>" } else { "" }, pre.iter().map(|p| p.render()).collect::<Vec<_>>().join(","));
                 c.prefill = pre;
+                c.inexact_iter = inexact;
                 c.ops = ops::POLL | ops::COMPLETE | ops::WAKE;
                 c.costly = ops::WAKE;
                 c.delta = 1;
@@ -1083,5 +1086,16 @@ pub fn scenarios(prop: &str, tier: &str) -> Vec<Cfg> {
         }
         _ => {}
     }
+    // every scenario built by a from_iter-style constructor is also run with an inexact size hint
+    let mut extra = vec![];
+    for c in &v {
+        if matches!(c.kind, Kind::FubIter(_) | Kind::FuIter(_) | Kind::FobIter(_) | Kind::FoIter(_) | Kind::Mb(_) | Kind::MuIter(_)) && !c.inexact_iter && c.prefill.len() <= 8 {
+            let mut d = c.clone();
+            d.inexact_iter = true;
+            d.name = format!("{} <via filter()>", d.name);
+            extra.push(d);
+        }
+    }
+    v.extend(extra);
     v
 }
